@@ -51,9 +51,16 @@ fn select_everything(claims: &serde_json::Value) -> serde_json::Map<String, serd
 
 pub fn run(ctx: &mut Ctx, o: &RichOpts) {
     let mut r = StdRng::seed_from_u64(o.seed);
-    for _ in 0..o.n {
+    for case in 0..o.n {
         ctx.reset("rich", "");
-        let fmt = if r.gen_bool(0.5) { Fmt::Compact } else { Fmt::Json };
+        // WIDE PRELUDE: the first six cases of every run (drivers that allow wide claim sets) are credentials with hundreds of
+        // disclosures, every node hidden, everything selected, in both formats alternately - limits on counts or sizes
+        // (a parser that keeps 128 parts, a counter that overflows at 128) must not depend on a lucky draw
+        let prelude = o.tree.wide && !o.time && o.plant == 0.0 && case < 6;
+        let mut fmt = if r.gen_bool(0.5) { Fmt::Compact } else { Fmt::Json };
+        if prelude {
+            fmt = if case % 2 == 0 { Fmt::Compact } else { Fmt::Json };
+        }
         let (key, alg) = ISSUER_KEYS[r.gen_range(0..ISSUER_KEYS.len())];
         let hk = match r.gen_range(if o.kb_on { 1 } else { 0 }..HOLDER_KEYS.len() + 1) {
             0 => None,
@@ -61,6 +68,18 @@ pub fn run(ctx: &mut Ctx, o: &RichOpts) {
         };
         let decoy = o.decoy_on || r.gen_bool(0.5);
         let mut claims = rclaims(&mut r, &o.tree, now());
+        if prelude {
+            let n = [140usize, 140, 270, 270, 600, 600][case];
+            let m = claims.as_object_mut().unwrap();
+            m.retain(|k, _| ["iss", "exp", "iat", "sub"].contains(&k.as_str()));
+            if case < 4 {
+                m.insert("serials".into(), serde_json::Value::Array((0..n).map(|i| serde_json::json!(format!("s{i}"))).collect()));
+            } else {
+                for i in 0..n / 2 {
+                    m.insert(format!("w{i:03}"), serde_json::json!({"v": i}));
+                }
+            }
+        }
         if o.time {
             let t = now() as i64;
             let off = |r: &mut StdRng| -> i64 {
@@ -102,7 +121,10 @@ pub fn run(ctx: &mut Ctx, o: &RichOpts) {
         if o.plant > 0.0 && r.gen_bool(o.plant) {
             plant_reserved(&mut claims, &mut r);
         }
-        let strat = rstrategy(&mut r, &claims, o.bad_paths);
+        let mut strat = rstrategy(&mut r, &claims, o.bad_paths);
+        if prelude {
+            strat = StratSpec::simple("all");
+        }
         let mut issuer = if alg == "ES256" && r.gen_bool(0.5) { new_issuer_default_alg(key) } else { new_issuer(key, alg) };
         let issued = issue(ctx, &mut issuer, &IssueArgs { inst: "I1", key, alg, claims: &claims, strat: &strat, hk: hk.map(|h| h.0), decoy, fmt });
         let Some(issued) = issued.ok() else { continue };
@@ -116,7 +138,9 @@ pub fn run(ctx: &mut Ctx, o: &RichOpts) {
         let Some(mut holder) = holder_new(ctx, "P1", &issued, fmt).ok() else { continue };
         let arbitrary = r.gen_bool(o.arbitrary_sel);
         // (an empty selection - nothing disclosed - is a case of its own: jwt~[kb], "disclosures": [])
-        let sel = if arbitrary {
+        let sel = if prelude {
+            select_everything(&claims)
+        } else if arbitrary {
             rsel_arbitrary_root(&claims, &mut r)
         } else if r.gen_bool(0.12) {
             serde_json::Map::new()
